@@ -92,6 +92,16 @@ Record stream := {
   k_has_close : bool
 }.
 
+(* what the error handler that answers a body-rendering failure leaves in the response *)
+Record recovery := {
+  rc_status : status_in;
+  rc_text : option bytes;
+  rc_data : option bytes;
+  rc_media : option bytes;          (* ORACLE: serialized *)
+  rc_media_fails : bool;            (* serializing THAT media raises as well *)
+  rc_ctype : option str             (* content type set while handling (None: left as it was) *)
+}.
+
 Record input := {
   i_head : bool;                    (* req.method == 'HEAD' *)
   i_status : status_in;
@@ -103,8 +113,13 @@ Record input := {
   i_clen : option str;              (* Content-Length set by the application *)
   i_ctype : option str;             (* Content-Type set by the application *)
   i_wrapper : bool;                 (* WSGI: environ has wsgi.file_wrapper *)
-  i_cached : bool                   (* resp._media_rendered already holds the serialized media
+  i_cached : bool;                  (* resp._media_rendered already holds the serialized media
                                        (an earlier render_body() call): no side effect now *)
+  i_disconnect : option nat;        (* ASGI/SSE: receive() delivers http.disconnect once this many
+                                       events have been sent *)
+  i_media_fails : bool;             (* rendering resp.media raises (unserializable object, no
+                                       handler for the content type, handler error) *)
+  i_recovery : recovery             (* ... and this is how the error handler answers *)
 }.
 
 (* Response.render_body: text, else data, else rendered media *)
@@ -115,6 +130,14 @@ Definition render_body (i : input) : option bytes :=
             | Some d => Some d
             | None => i_media i
             end
+  end.
+
+(* SSE: the emitter is abandoned after the event during which the disconnect watcher finished
+   (`if watcher.done(): break` comes after the send); at least one event is attempted *)
+Definition sse_effective (i : input) : option (list bytes) :=
+  match i_sse i, i_disconnect i with
+  | Some evs, Some k => Some (firstn (Nat.max 1 k) evs)
+  | o, _ => o
   end.
 
 (* ---- the header dict, keyed by lower-case name; only the two framing headers matter here *)
@@ -326,7 +349,7 @@ Definition asgi_emit (i : input) (fail_at : option nat) : option asgi_out :=
              else (h0, Some default_media_type) in
       plain [AStart code (finish_headers h1 mt); ABody [] false]
     else
-    match i_sse i with
+    match sse_effective i with
     | Some evs =>
       plain (AStart code (finish_headers h0 (Some sse_media_type))
              :: map (fun e => ABody e true) evs ++ [ABody [] false])
@@ -358,6 +381,29 @@ Definition asgi_emit (i : input) (fail_at : option nat) : option asgi_out :=
       end
     end
   end.
+
+(* ---- body rendering fails (falcon/app.py + asgi/app.py, the window repaired by
+   fixes/C04-render-error-body.patch): _handle_exception resets text/data/media, the error
+   handler fills the response in, and the response is rendered ONCE more; if that fails too
+   it goes out bodiless.  The response stream is not looked at any more. *)
+Definition render_fails (i : input) : bool := media_rendered i && i_media_fails i.
+
+Definition recover (i : input) : input :=
+  let rc := i_recovery i in
+  {| i_head := i_head i; i_status := rc_status rc;
+     i_text := rc_text rc; i_data := rc_data rc;
+     i_media := if rc_media_fails rc then None else rc_media rc;
+     i_stream := None; i_sse := i_sse i; i_clen := i_clen i;
+     i_ctype := match rc_ctype rc with Some c => Some c | None => ctype_after_render i end;
+     i_wrapper := i_wrapper i; i_cached := false; i_disconnect := i_disconnect i;
+     i_media_fails := false; i_recovery := rc |}.
+
+(* what the app finally renders from *)
+Definition effective (i : input) : input := if render_fails i then recover i else i.
+
+Definition wsgi_emit_r (by_code : bool) (i : input) : option wsgi_start := wsgi_emit by_code (effective i).
+Definition asgi_emit_r (i : input) (fa : option (nat * fault)) : option asgi_out :=
+  asgi_emit (effective i) (option_map fst fa).
 
 (* the send fault carries its kind too; the emission does not depend on it *)
 Definition asgi_emit_f (i : input) (fa : option (nat * fault)) : option asgi_out :=
@@ -437,4 +483,7 @@ Definition input_of_session (l : list step) (head : bool) (status : status_in)
                 end;
      i_stream := stream; i_sse := None; i_clen := clen; i_ctype := rs_ctype s;
      i_wrapper := wrapper;
-     i_cached := match rs_rendered s with Some _ => true | None => false end |}.
+     i_cached := match rs_rendered s with Some _ => true | None => false end;
+     i_disconnect := None; i_media_fails := false;
+     i_recovery := {| rc_status := status; rc_text := None; rc_data := None; rc_media := None;
+                      rc_media_fails := false; rc_ctype := None |} |}.
